@@ -13,12 +13,12 @@ RULE = ("(a) bounded-exhaustive argument lists: the pair NAME <n> inserted at ev
         "Each case runs the real pipeline; oracle = reference model of the statement.  non-trivial = every case "
         "(each expects >=1 test entry); distinct by expected (kind, signature) list")
 
-NAMES = ["tname", '"quoted name"', "${tref}"]
+NAMES = ["tname", '"quoted name"', "${tref}", "fail", "_trail_"]     # a fragment of a keyword; underscores at both ends
 
 
 def pool(name):
     return ["EXPECTFAIL", name, "MYNAME", "NAME_X", "EXPECTFAILURE", "COMMAND", "prog", '"quoted  arg\tx"', "${v}",
-            "--NAME", "${EXPECTFAIL}"]
+            "--NAME", "${EXPECTFAIL}", "am", "EXPECT", "arg_", '"^core\\\\.io$"']    # keyword fragments, reST-special endings, backslashes
 
 
 def arg_lists(k):
